@@ -3,12 +3,39 @@ reading shows infeasible.  One symbol per entry, one line of reason, keyed by
 finding key (rule|function|anchor) -- never wider.
 """
 
+def bundled_quantity_cannot_raise(repo):
+    """pvl.collections.Quantity is a plain namedtuple subclass: it defines no __new__/__init__ of its own (or one
+    without a raise and without calls other than super().__new__/__init__), so constructing it from (value, str)
+    cannot raise ValueError.  Decided from the class body; when it fails the triage entry does not apply."""
+    import ast
+    if "Quantity" not in repo.classes:
+        return False
+    ci = repo.classes["Quantity"]
+    bases = " ".join(ci.base_exprs)
+    if "namedtuple" not in bases and "NamedTuple" not in bases:
+        return False
+    for m in ("__new__", "__init__", "__post_init__"):
+        fn = ci.methods.get(m)
+        if fn is None:
+            continue
+        for n in ast.walk(fn):
+            if isinstance(n, ast.Raise):
+                return False
+            if isinstance(n, ast.Call):
+                f = ast.unparse(n.func)
+                if not (f.startswith("super(") or f in ("tuple.__new__", "super")):
+                    return False
+    return True
+
+
 TABLE = {
     "T3|PVLDecoder.decode_quantity|QuantityError from raise QuantityError [in except ValueError]": {
         "reason": "reachable only when a user-supplied quantity_cls raises ValueError; the five bundled "
                   "configurations use pvl.collections.Quantity, a namedtuple whose constructor cannot raise "
-                  "ValueError; QuantityError is the documented result for user classes",
+                  "ValueError (checked on the class body: bundled_quantity_cannot_raise); QuantityError is the "
+                  "documented result for user classes",
         "properties": None,
+        "condition": bundled_quantity_cannot_raise,
     },
     "T3|lex_multichar_comments|ValueError from raise ValueError*": {
         "reason": "unreachable: lex_comment() calls lex_multichar_comments only when char is in c_info['multi_chars'], "
